@@ -69,6 +69,9 @@ class Gen:
             return (And if r.random() < 0.5 else Or)(a, b)
         if c < 0.30:
             vs = self.assignable(kind)
+            if vs and kind == 'str':
+                # never feed a string variable back into itself: growth must stay bounded
+                return Assign(Var(r.choice(vs)), Str(r.choice(STRS)))
             if vs:
                 name = r.choice(vs)
                 if r.random() < 0.5 or kind not in ('num', 'str'):
@@ -173,6 +176,8 @@ class Gen:
             kind = r.choice(['num', 'num', 'str', 'bool', 'nil', 'list'])
             name = self.fresh()
             e = self.expr(kind)
+            if kind == 'str' and self.loop_depth > 1:
+                e = Str(r.choice(STRS))
             # the declaration must run so later uses are defined: guard only the initialiser
             tmp = [Let(name, Nil() if kind == 'nil' else self.leaf_const(kind)),
                    self.guarded([ExprS(Assign(Var(name), e))])]
